@@ -151,20 +151,26 @@ def run(P: Program, R: Report, tier: str) -> None:
     R.not_decided += ["that recomputed values equal reference values"]
     A = ActionAnalysis(P)
     # ---- R10.1
-    una = [c for c in A.primitives if "attr" in norm(c.node).lower() and "protected" in norm(c.node)]
+    una = [c for c in A.primitives if any(".all_features" in norm(n) or ".annotators.features" in norm(n) for n in ast.walk(A.init_of(c).node) if isinstance(n, ast.Attribute))]
     if not una:
         raise AnalysisError("attribute-update primitive with a protected set not found")
     for c in una:
         init = A.init_of(c)
-        tests = [x for x in ast.walk(init.node) if isinstance(x, ast.If) and any(isinstance(s, ast.Raise) for s in x.body) and isinstance(x.test, ast.Compare) and isinstance(x.test.ops[0], ast.In)]
-        R.check(bool(tests), "R10.1", init, init.node, f"{c.name} refuses protected attributes", "no membership test followed by a raise", via="syntax")
-        for t in tests:
-            setname = norm(t.test.comparators[0])
-            feeds = [norm(s) for s in ast.walk(init.node) if isinstance(s, (ast.Assign, ast.Expr)) and setname in norm(s)]
-            blob = " ".join(feeds)
-            R.check(".all_features" in blob, "R10.1", init, t, f"{c.name}: the protected set is built from ALL annotator features",
+        # collections that membership tests are made against
+        tested = set()
+        for n in ast.walk(init.node):
+            if isinstance(n, ast.Compare) and len(n.ops) == 1 and isinstance(n.ops[0], (ast.In, ast.NotIn)):
+                tested.add(norm(n.comparators[0]))
+        raises = [x for x in ast.walk(init.node) if isinstance(x, ast.Raise)]
+        R.check(bool(tested) and bool(raises), "R10.1", init, init.node, f"{c.name} refuses protected attributes", "no membership test / raise", via="syntax")
+        for setname in sorted(tested):
+            feeds = [norm(s) for s in ast.walk(init.node) if isinstance(s, (ast.Assign, ast.Expr, ast.AugAssign)) and setname in norm(s)]
+            blob = " ".join(feeds) + " " + setname
+            if ".all_features" not in blob and "features" not in blob:
+                continue  # an unrelated membership test
+            R.check(".all_features" in blob, "R10.1", init, init.node, f"{c.name}: the protected set `{setname}` is built from ALL annotator features",
                     f"`{setname}` is built from `{blob[:140]}`: a managed feature that is currently disabled can be overwritten", via="provenance")
-            R.check("time_key" in blob, "R10.1", init, t, f"{c.name}: the protected set contains the time key", blob[:140], via="provenance")
+            R.check("time_key" in blob, "R10.1", init, init.node, f"{c.name}: the protected set contains the time key", blob[:140], via="provenance")
     # ---- R10.2
     reg = P.class_named("AnnotatorRegistry")
     tracks = P.class_named("Tracks")
@@ -175,10 +181,10 @@ def run(P: Program, R: Report, tier: str) -> None:
         E, results = A.run(f)
         typestate(R, "R10.2", f, E, results, "feature flags / registry")
         if f.cls.name == reg.name:
-            has_raise = any(isinstance(x, ast.Raise) and "KeyError" in norm(x) for x in ast.walk(f.node))
-            R.check(has_raise, "R10.2", f, f.node, f"{f.short} rejects unknown keys with KeyError", "no KeyError raise", via="syntax")
-            avail = [s for s in ast.walk(f.node) if isinstance(s, ast.Assign) and ".all_features" in norm(s.value)]
-            R.check(bool(avail), "R10.2", f, f.node, f"{f.short} validates against all_features (everything that can be managed)", "", via="provenance")
+            kerr = [pr for pr in results if pr.kind == "raise" and pr.last is not None and pr.last.name == "KeyError"]
+            R.check(bool(kerr), "R10.2", f, f.node, f"{f.short} rejects unknown keys with KeyError (on some path, possibly in a helper)", "no KeyError raise reachable", via="typestate")
+            srcs = " ".join(norm(g.node) for g in [f] + [m for m in reg.methods.values() if any(isinstance(c, ast.Call) and call_name(c) == m.name for c in ast.walk(f.node))])
+            R.check(".all_features" in srcs, "R10.2", f, f.node, f"{f.short} validates against all_features (everything that can be managed)", "", via="provenance")
     # ---- R10.3 gated writes
     n = 0
     for a in P.annotators():
@@ -210,12 +216,16 @@ def run(P: Program, R: Report, tier: str) -> None:
         comp = a.methods.get("compute")
         if comp is None:
             continue
-        filt = [s for s in ast.walk(comp.node) if isinstance(s, ast.Assign) and "_filter_feature_keys(" in norm(s.value)]
+        filt = [c for c in ast.walk(comp.node) if isinstance(c, ast.Call) and call_name(c) == "_filter_feature_keys"]
         R.check(bool(filt), "R10.5", comp, comp.node, f"{a.name}.compute filters the requested keys through the active set", "", via="syntax")
     base = P.class_named("GraphAnnotator").methods.get("_filter_feature_keys")
     if base is not None:
-        src = norm(base.node)
-        R.check("in self.features" in src, "R10.5", base, base.node, "_filter_feature_keys keeps only keys in self.features", src[:120], via="syntax")
+        from ..resolve import Resolver
+
+        rs = Resolver(P, base)
+        tests = [rs.text(n.comparators[0]) for n in ast.walk(base.node) if isinstance(n, ast.Compare) and len(n.ops) == 1 and isinstance(n.ops[0], ast.In)]
+        R.check(bool(tests) and all(t in ("self.features", "self.features.keys()") for t in tests), "R10.5", base, base.node,
+                "_filter_feature_keys keeps only keys in self.features", str(tests), via="provenance")
     # ---- R10.6
     comps = [c for c in ast.walk(en.node) if isinstance(c, ast.Call) and call_name(c) == "compute"]
     R.check(len(comps) == 1 and comps and norm(comps[0].args[0]) == en.params[1], "R10.6", en, comps[0] if comps else en.node,
